@@ -207,6 +207,26 @@ theorem C06_binary_block_refines {ρ ν : Type} (kind : Kind) (parse : ρ → Op
       (absP decU parse (runP encU decU kind parse st ops).1, (runP encU decU kind parse st ops).2) :=
   runP_refines encU decU (fun _ => rfl) kind parse ops st hst
 
+/-- **Reads are pure.**  (a) On a column with an explicit mask, `as_array` in every flavour, reading
+`.data.array`, and building a second column on the same data leave (data, mask) unchanged, so a
+whole history of reads gives what each read gives on the *initial* column.  (b) On the containers,
+`get`, `contains`, iteration and `len` never change what the store means (`get` only caches). -/
+theorem C06_reads_pure :
+    (∀ (c : Col) (op : ColOp), (colStep c op).1 = c) ∧
+    (∀ (c : Col) (ops : List ColOp), colRun c ops = (c, ops.map (fun op => (colStep c op).2))) ∧
+    (∀ {κ ρ ν : Type} [BEq κ] [LawfulBEq κ] (kind : Kind) (parse : ρ → Option ν) (st : Store κ ρ ν) (k : κ),
+      absStore parse (step kind parse st (.get k)).1 = absStore parse st ∧
+      (step kind parse st (.has k)).1 = st ∧ (step kind parse st .iter).1 = st ∧ (step kind parse st .len).1 = st) := by
+  refine ⟨fun c op => by cases op <;> rfl, ?_, ?_⟩
+  · intro c ops
+    induction ops with
+    | nil => rfl
+    | cons op ops ih =>
+      have h1 : (colStep c op).1 = c := by cases op <;> rfl
+      simp only [colRun, h1, ih, List.map_cons]
+  · intro κ ρ ν _ _ kind parse st k
+    exact ⟨(get_abs kind parse st k).1, rfl, rfl, rfl⟩
+
 /-- `get` after lazy parsing returns `parse raw`, and the element is cached. -/
 theorem C06_get_parses {κ ρ ν : Type} [BEq κ] [LawfulBEq κ] (kind : Kind) (parse : ρ → Option ν)
     (st : Store κ ρ ν) (k : κ) (r : ρ) (v : ν) (h : lookup k st = some (.raw r)) (hp : parse r = some v) :
@@ -334,6 +354,9 @@ example : (encU (str "_p")).dropWhile (· == '_') ≠ str "_p" := by decide
 example : (runP (ρ := Nat) (ν := Nat) encU decU ⟨false, true⟩ (fun r => some r) []
     [.set (str "t_") 1, .set (str "_p") 2, .iter, .has (str "t_"), .get (str "_p")]).2 =
     [.unit, .unit, .keys [str "t_", str "_p"], .bool true, .val 2] := by decide
+example : (Col.mk [str "x1", str "x2", str "x3"] [0, 1, 2]).asArray none = [str "x1", sDot, sQm] := by decide
+example : (colRun ⟨[str "x1", str "x2"], [2, 0]⟩ [.arr none, .data, .arr (some (str "-")), .plain]).2 =
+    [[sQm, str "x2"], [str "x1", str "x2"], [str "-", str "x2"], [str "x1", str "x2"]] := by decide
 example : (rcRun (κ := Nat) false ⟨[(0, 2)], none⟩ [.ser, .set 0 3, .ser, .count]).2 =
     [.ok (some 2), .ok none, .ok (some 3), .ok (some 3)] := by decide
 example : NameOk (str "atom_site") := by unfold NameOk; decide
